@@ -125,6 +125,9 @@ def r1_keys(ctx, sites, rule="C26.R1", want_cls=lambda ci: True):
 
 def run(ctx):
     rep = ctx.rep
+    rep.rule("C26.R6", "memoised results are neither persistent buffers of the instance nor modified in place by their consumers (K18, whole package)", 20)
+    from .. import cachepurity
+    cachepurity.report(ctx, "C26.R6", ("cardillo/",))
     rep.rule("C26.R1", "key completeness (parameter liveness vs key; rods: N,N_xi = basis(xi) at every call site)", 40)
     rep.rule("C26.R2", "no stale state: writers of state read under a cache clear it", 16)
     rep.rule("C26.R3", "no in-place mutation of memoised results by callers", 80)
@@ -468,4 +471,9 @@ NEUTRAL = [
     dict(id="c26-n1", canary=True, what="copy before mutating is fine", file=RB,
          old="        r_OP_q[:, :] += np.einsum(\"ijk,j->ik\", self.A_IB_q(t, q), B_r_CP)\n        return r_OP_q",
          new="        A_IB_q = self.A_IB_q(t, q)\n        A_IB_q = A_IB_q.copy()\n        A_IB_q[:, :, :3] += 0.0\n        r_OP_q[:, :] += np.einsum(\"ijk,j->ik\", A_IB_q, B_r_CP)\n        return r_OP_q"),
+]
+MUTANTS += [
+    dict(id="c26-r6-1", canary=True, what="rod E_pot_el divides the memoised strains in place (cache poisoning by a consumer)", file="cardillo/rods/_base.py",
+         old="            # axial and shear strains\n            B_Gamma = B_Gamma_bar / Ji\n\n            # torsional and flexural strains\n            B_Kappa = B_Kappa_bar / Ji\n\n            # evaluate strain energy function",
+         new="            B_Gamma_bar /= Ji\n            B_Kappa_bar /= Ji\n            B_Gamma, B_Kappa = B_Gamma_bar, B_Kappa_bar\n\n            # evaluate strain energy function", expect="C26.R6"),
 ]
